@@ -21,7 +21,8 @@
 //	#ctx TAB <name> TAB <ERR|PANIC|NOHOLE> TAB 0 TAB -        (the context is unusable)
 //
 // stdin: `<hex e>` [TAB <hex expected subtree> | "-"] [TAB <name>,<name>,... | "*"]
-// stdout, per input line: `<hex e>` followed by one field ` TAB <name>=<result>` per selected context:
+// stdout, per input line: `<hex e> TAB *` if every selected context has the result `=`, otherwise
+// `<hex e>` followed by one field ` TAB <name>=<result>` per selected context:
 //
 //	<result> = `=`                       every hole shows exactly the expected subtree (only when an
 //	                                     expected subtree was given)
@@ -50,6 +51,7 @@ import (
 	"fmt"
 	"os"
 	"runtime"
+	"runtime/debug"
 	"strings"
 	"sync"
 
@@ -274,9 +276,11 @@ func runContexts(path string, show bool) int {
 		return 0
 	}
 
+	// parse + explain is allocation-bound and the live heap is tiny: collect less often
+	debug.SetGCPercent(800)
 	workers := runtime.NumCPU()
-	if workers > 8 {
-		workers = 8
+	if workers > 12 {
+		workers = 12
 	}
 	in := bufio.NewReaderSize(os.Stdin, 1<<20)
 	const chunk = 4096
@@ -349,15 +353,24 @@ func evalLine(line string, ctxs []*ctxDef, byName map[string]*ctxDef) string {
 	}
 	var b strings.Builder
 	b.WriteString(f[0])
+	allEq := true
 	for _, c := range sel {
 		b.WriteByte('\t')
 		b.WriteString(c.name)
 		b.WriteByte('=')
 		if c.status != "OK" {
 			b.WriteString("UNCALIBRATED")
+			allEq = false
 			continue
 		}
-		b.WriteString(c.eval(e, expected, have))
+		r := c.eval(e, expected, have)
+		if r != "=" {
+			allEq = false
+		}
+		b.WriteString(r)
+	}
+	if allEq && len(sel) > 0 {
+		return f[0] + "\t*"
 	}
 	return b.String()
 }
